@@ -85,7 +85,8 @@ def c13g(prog, rep):
                 continue
             rk = render(kind)
             raw = rk[5:] if rk.startswith("call:") else (rk[6:] if rk.startswith("place:") else rk)
-            is_asm = rk == "Keyword(Asm)" or any(c[0] == "is" and c[2] == "Asm" and str(c[1]) == raw for c in cons)
+            # the facts a path knows about the returned value: `v == Keyword(Asm)` (derived ==) or `matches!(v, Keyword(Asm))` (v is Keyword, v@Keyword.0 is Asm)
+            is_asm = rk == "Keyword(Asm)" or any(c[0] == "is" and c[2] == "Asm" and str(c[1]) in (raw, raw + "@Keyword.0") for c in cons)
             not_asm = not is_asm and (rk in ("Identifier",) or rk.startswith("Keyword(") or any(c[0] == "not" and "Asm" in c[2] and str(c[1]) == raw for c in cons))
             n += 1
             if flag and flag[-1] == "True" and not is_asm:
@@ -156,7 +157,16 @@ def c13a(prog, rep):
         if rep.check(len(sp) == 1 and len(cw) == 1, R, "one-split-one-count", "whitespace_and_token must call split_at and count_leading_whitespace exactly once each"):
             rep.check(canon(wt, sp[0].args[0]) == "arg1" and canon(wt, cw[0].args[0]) == "arg1", R, "split-and-count-on-the-input", "split_at / count_leading_whitespace no longer operate on the function's input parameter")
             end_o = origins(wt).of_operand(sp[0].args[1])
-            rep.check({x[2] for x in end_o if x[0] == "call"} == {LX + "lex_token", LX + "lex_asm_token"} and all(x[0] == "call" for x in end_o), R, "split-at-sublexer-end",
+            srcs = set()
+            for x in end_o:
+                if x[0] == "call" and x[2] == "<fnptr>":
+                    # `let lex_next = state.token_lexer(); lex_next(args)`: the functions the pointer can be
+                    from util import fnptr_targets
+                    site = [c for c in wt.calls() if c.bb == x[1]]
+                    srcs |= (fnptr_targets(prog, wt, site[0]) if site else None) or {"<fnptr>"}
+                elif x[0] == "call":
+                    srcs.add(x[2])
+            rep.check(srcs == {LX + "lex_token", LX + "lex_asm_token"} and all(x[0] == "call" for x in end_o), R, "split-at-sublexer-end",
                       "the split offset is not exactly the end offset returned by the sub-lexer: %s" % sorted(map(str, end_o)), instance={"split_offset_origin": ["lex_token", "lex_asm_token"]})
             # the returned pair is (suffix, LexedToken{ws_count, prefix, type})
             ok = False
@@ -644,7 +654,11 @@ def c13d(prog, rep):
         rep.check(ok, R, "_block_comment:nl_before/nl_inside", "_block_comment does not derive nl_before from (text before ∋ '\\n' ∨ is_first) and nl_inside from the comment's own text")
     # is_first is cleared after the first token and set only at the start
     w = [(a[0].npath, a[3]) for a in prog.field_accesses(LX + "LexState", "is_first") if a[3].startswith("write")]
-    rep.check(sorted(x[0] for x in w) == [LX + "whitespace_and_token"], R, "who-writes:is_first", "LexState.is_first is written in %s" % sorted(short(x[0]) for x in w), instance={"writers": sorted(short(x[0]) for x in w)})
+    from layout import helper_closure
+    wn = {x[0] for x in w}
+    part = helper_closure(prog, wn, {LX + "whitespace_and_token"})     # a private helper called only from whitespace_and_token is part of it
+    rep.check(bool(wn) and all(x == LX + "whitespace_and_token" or x in part for x in wn), R, "who-writes:is_first", "LexState.is_first is written in %s" % sorted(short(x[0]) for x in w),
+              instance={"writers": sorted(short(x) for x in wn)})
 
 
 PROPERTIES = {
